@@ -23,6 +23,7 @@ import (
 	"os"
 	"os/exec"
 	"path/filepath"
+	"sort"
 	"strconv"
 	"strings"
 	"sync"
@@ -416,6 +417,7 @@ func c16Dir(base string, dirIdx int, seed int64, cycles, maxStores int, maxRun t
 			st.selfExit++
 		}
 		// ---- the history of this cycle
+		log("OpenBegin", map[string]interface{}{"who": "child", "cycle": cyc}, nil) // START seen: the child entered db.Open
 		if s.openFail != "" {
 			log("Reopen", map[string]interface{}{"who": "child", "cycle": cyc}, map[string]interface{}{"ok": false, "err": s.openFail})
 			return lines, st, ""
@@ -653,41 +655,230 @@ func TestVerifStoreCrash(t *testing.T) {
 		st.unackedLost, st.neverOpened, st.selfExit, st.gets, st.maxAcks, st.closedRefused, st.closedAcked, st.closedStalled, tr.n)
 }
 
-// Informational probe (not part of the verdict): the directory state a kill between the creation and the sizing
-// of one of Badger's log files leaves behind - a zero-length NNNNN.mem (memtable WAL) or NNNNNN.vlog (value log)
-// - prepared by hand on a cleanly closed store; does Open succeed on it, at the first and at the second attempt?
-func TestVerifStoreProbeEmptyWal(t *testing.T) {
-	if os.Getenv("VERIF_C16_PROBE") == "" {
+// Deterministic kill points inside db.Open.  A SIGKILL that lands in Open between the creation of a file and its
+// first write (or sizing) leaves that file behind with no content; the timed kills above hit such an instant only
+// by chance.  This probe finds out which files Open itself creates - directory listing before / while open / after
+// close, for a fresh directory and for an existing store - and prepares, on a copy of a cleanly closed store that
+// holds acknowledged VAAs, the directory state of "killed between creation and first write" for each of them:
+//   - Badger's log files (NNNNN.mem memtable WAL, NNNNNN.vlog value log; both created, then sized): zero length;
+//   - every file that is not one of Badger's (whatever db.go's Open adds): zero length, and cut to half its length;
+//   - Badger's other files (MANIFEST, KEYREGISTRY, DISCARD, LOCK), which Badger writes under a temporary name and
+//     renames into place or maps: informational only (reported in VERIF-PROBE, no trace), as an empty file of that
+//     name is not known to be a state a kill can leave.
+//
+// Each prepared state becomes one trace: Reset, StoreAcked, Close, OpenBegin, Kill (mode "emulated-torn-file"),
+// Reopen, Get ..., Close - validated by TLC against Store.tla like the histories of real kills: Open must succeed
+// (ReopenAlways) and every acknowledged VAA must be found (AckedSurvive).
+func c16List(dir string) map[string]int64 {
+	res := map[string]int64{}
+	ents, _ := os.ReadDir(dir)
+	for _, e := range ents {
+		if fi, err := e.Info(); err == nil && !e.IsDir() {
+			res[e.Name()] = fi.Size()
+		}
+	}
+	return res
+}
+
+func c16BadgerFile(name string) (owned bool, logFile bool) {
+	switch filepath.Ext(name) {
+	case ".mem", ".vlog":
+		return true, true
+	case ".sst":
+		return true, false
+	}
+	switch name {
+	case "MANIFEST", "KEYREGISTRY", "DISCARD", "LOCK":
+		return true, false
+	}
+	return false, false
+}
+
+func c16CopyDir(src, dst string) error {
+	if err := os.MkdirAll(dst, 0o755); err != nil {
+		return err
+	}
+	ents, err := os.ReadDir(src)
+	if err != nil {
+		return err
+	}
+	for _, e := range ents {
+		if e.IsDir() {
+			continue
+		}
+		b, err := os.ReadFile(filepath.Join(src, e.Name()))
+		if err != nil {
+			return err
+		}
+		if err := os.WriteFile(filepath.Join(dst, e.Name()), b, 0o644); err != nil {
+			return err
+		}
+	}
+	return nil
+}
+
+func TestVerifStoreProbeTornFiles(t *testing.T) {
+	trPath := os.Getenv("VERIF_TRACE")
+	if os.Getenv("VERIF_C16_PROBE") == "" || trPath == "" {
 		t.Skip("probe not requested")
 	}
-	res := ""
-	for _, name := range []string{"00001.mem", "000002.vlog"} {
-		dir := t.TempDir()
-		d, err := Open(dir)
+	tr, err := vhOpenTrace(trPath)
+	if err != nil {
+		t.Fatal(err)
+	}
+	defer tr.Close()
+	const stored, never = 12, 2
+	ids := c16Ids(424242)[:stored+never]
+	w := shNewWorld()
+	tab := make([]interface{}, len(ids))
+	vids := make([]vaa.VAAID, len(ids))
+	for i, id := range ids {
+		tab[i] = id.J()
+		vids[i] = w.vaaID(id)
+	}
+	// ---- a fresh directory: what does Open create?
+	S := filepath.Join(t.TempDir(), "store")
+	if err := os.MkdirAll(S, 0o755); err != nil {
+		t.Fatal(err)
+	}
+	d, err := Open(S)
+	if err != nil {
+		t.Fatal(err)
+	}
+	created := map[string]bool{}
+	sizes := map[string]int64{}
+	note := func(m map[string]int64, before map[string]int64) {
+		for n, sz := range m {
+			if _, had := before[n]; !had {
+				created[n] = true
+			}
+			if sz > sizes[n] {
+				sizes[n] = sz
+			}
+		}
+	}
+	note(c16List(S), nil)
+	var vs []interface{}
+	for k := 0; k < stored; k++ {
+		tag := c16Tag(k)
+		v := c16Build(w, ids[k], tag, 0)
+		w.byHash[sha256.Sum256(v.Encode())] = shVal{ID: ids[k], Tag: tag}
+		if err := d.StoreSignedVAA(shToVAA(v)); err != nil {
+			t.Fatal(err)
+		}
+		vs = append(vs, []interface{}{k, tag})
+	}
+	if err := d.Close(); err != nil {
+		t.Fatal(err)
+	}
+	note(c16List(S), nil)
+	// ---- the existing store: what does Open create there?
+	before := c16List(S)
+	if d, err = Open(S); err != nil {
+		t.Fatal(err)
+	}
+	note(c16List(S), before)
+	if err := d.Close(); err != nil {
+		t.Fatal(err)
+	}
+	note(c16List(S), before)
+	final := c16List(S)
+
+	type cand struct {
+		file, variant string
+		verdict       bool
+	}
+	var cands []cand
+	seen := map[string]bool{}
+	add := func(c cand) {
+		if !seen[c.file+"|"+c.variant] {
+			seen[c.file+"|"+c.variant] = true
+			cands = append(cands, c)
+		}
+	}
+	// Badger's next log files (the names the next Open would create), and the ones seen being created
+	add(cand{"00001.mem", "zero-length", true})
+	add(cand{"000002.vlog", "zero-length", true})
+	names := make([]string, 0, len(created))
+	for n := range created {
+		names = append(names, n)
+	}
+	sort.Strings(names)
+	for _, n := range names {
+		owned, logf := c16BadgerFile(n)
+		switch {
+		case logf:
+			if final[n] == 0 { // not a file that holds data in the closed store
+				add(cand{n, "zero-length", true})
+			}
+		case owned:
+			add(cand{n, "zero-length", false})
+		default:
+			add(cand{n, "zero-length", true})
+			if sizes[n] >= 2 {
+				add(cand{n, "cut-to-half", true})
+			}
+		}
+	}
+	summary := []string{}
+	for ci, c := range cands {
+		C := filepath.Join(t.TempDir(), "copy")
+		if err := c16CopyDir(S, C); err != nil {
+			t.Fatal(err)
+		}
+		target := filepath.Join(C, c.file)
+		switch c.variant {
+		case "zero-length":
+			err = os.WriteFile(target, nil, 0o644)
+		case "cut-to-half":
+			var b []byte
+			if b, err = os.ReadFile(filepath.Join(S, c.file)); err == nil {
+				err = os.WriteFile(target, b[:len(b)/2], 0o644)
+			}
+		}
 		if err != nil {
 			t.Fatal(err)
 		}
-		if err := d.Close(); err != nil {
-			t.Fatal(err)
-		}
-		if err := os.WriteFile(filepath.Join(dir, name), nil, 0o666); err != nil {
-			t.Fatal(err)
-		}
-		var errs [2]string
-		for i := range errs {
-			d, err = Open(dir)
-			errs[i] = shErrStr(err)
-			if len(errs[i]) > 90 {
-				errs[i] = errs[i][:90]
-			}
-			if err == nil {
+		tid := 1000 + ci
+		info := map[string]interface{}{"mode": "emulated-torn-file", "file": c.file, "variant": c.variant, "cycle": 0, "who": "probe"}
+		d, oerr := Open(C)
+		if !c.verdict { // informational
+			summary = append(summary, fmt.Sprintf("%q:{\"variant\":%q,\"informational\":true,\"open_error\":%q}", c.file+"#"+c.variant, c.variant, shErrStr(oerr)))
+			if oerr == nil {
 				d.Close()
 			}
+			continue
 		}
-		if res != "" {
-			res += ","
+		tr.Emit(tid, "Reset", map[string]interface{}{"ids": tab, "probe": true}, map[string]interface{}{})
+		tr.Emit(tid, "StoreAcked", map[string]interface{}{"vs": vs}, map[string]interface{}{})
+		tr.Emit(tid, "Close", map[string]interface{}{}, map[string]interface{}{"err": ""})
+		tr.Emit(tid, "OpenBegin", map[string]interface{}{"who": "probe"}, map[string]interface{}{})
+		tr.Emit(tid, "Kill", info, map[string]interface{}{})
+		if oerr != nil {
+			tr.Emit(tid, "Reopen", info, map[string]interface{}{"ok": false, "err": shErrStr(oerr)})
+			summary = append(summary, fmt.Sprintf("%q:{\"variant\":%q,\"open_error\":%q}", c.file+"#"+c.variant, c.variant, shErrStr(oerr)))
+			continue
 		}
-		res += fmt.Sprintf("%q:{\"first_open_error\":%q,\"second_open_error\":%q}", name, errs[0], errs[1])
+		tr.Emit(tid, "Reopen", info, map[string]interface{}{"ok": true, "err": ""})
+		for k := range ids {
+			b, gerr := d.GetSignedVAABytes(vids[k])
+			code, errs := "OK", ""
+			res := []interface{}{}
+			if gerr == ErrVAANotFound {
+				code = "NotFound"
+			} else if gerr != nil {
+				code, errs = "Error", shErrStr(gerr)
+			} else {
+				c := w.classify(b)
+				c["wc"] = 0
+				res = append(res, c)
+			}
+			tr.Emit(tid, "Get", map[string]interface{}{"id": ids[k].J(), "via": "db", "pass": 1},
+				map[string]interface{}{"err": errs, "code": code, "res": res})
+		}
+		cerr := d.Close()
+		tr.Emit(tid, "Close", map[string]interface{}{}, map[string]interface{}{"err": shErrStr(cerr)})
+		summary = append(summary, fmt.Sprintf("%q:{\"variant\":%q,\"open_error\":\"\"}", c.file+"#"+c.variant, c.variant))
 	}
-	fmt.Printf("VERIF-PROBE {%s}\n", res)
+	fmt.Printf("VERIF-PROBE {\"files_created_by_open\":%q,\"states\":{%s}}\n", strings.Join(names, " "), strings.Join(summary, ","))
 }
